@@ -41,6 +41,7 @@ import XotModel.Lemmas.FspecFrameReplace
 import XotModel.Lemmas.FparseHistStep
 import XotModel.Lemmas.ParseWitness
 import XotModel.Lemmas.FframeGeneralAll
+import XotModel.Lemmas.FframeRestAll
 
 namespace XotModel.Props
 open XotModel XotModel.Spec
@@ -1681,6 +1682,123 @@ theorem C05_reachable_frame_general_full (env : Env) (cs : List PCall) (hw : ∀
   intro s hla hok h hl h1 h2 h3
   have inv : s.forest.Inv := PStore.fph_run_inv cs (PStore.fph_init_inv env) hw
   obtain ⟨a, b, c', _⟩ := C05_frame_general inv hwc hf hla hok hl h1 h2 h3
+  exact ⟨a, b, c'⟩
+
+end XotModel.Props
+
+
+/-! # ================================================================================================
+    # THE GENERAL FRAME, LARGER DOMAIN (branch wt-framerest)
+    # ================================================================================================
+
+  `C05_frame_general2`: the statement of `C05_frame_general` for the domain `XCall.framed2` = `framed` and
+  map clear, append of an entry node (`append_attribute_node` / `append_namespace_node`), `any_append`
+  (Model/FframeSpec2.lean), with `writtenParents2 = writtenParents ++ extraWritten`.
+
+  `writtenParents` alone is NOT enough for the append of an entry node whose key is present in the target element: the
+  existing entry node of the target takes the value and is neither the target nor a text child
+  (`C05_writtenParents_misses_existing_entry`, a closed counterexample); `extraWritten` adds the entry nodes of that
+  kind of the target.  Likewise `remove_insignificant_whitespace(n)` removes `n` itself when it is a whitespace text
+  node the rule selects, and the parent of `n` is outside the subtree of `n`
+  (`C05_writtenParents_misses_parent_of_stripped_text`); `extraWritten` adds the parent.
+
+  NOT in `framed2`: remove_insignificant_whitespace, create_missing_prefixes, deduplicate_namespaces. -/
+
+namespace XotModel.Props
+open XotModel Spec
+
+/-- ⟦C05_frame_general2⟧ **No other node is created, lost, reordered or altered** — the calls of `XCall.framed2`
+    (the 21 kinds of `framed`, map clear, append of an entry node, any_append).  Every forest with the invariant,
+    every call with live arguments that answers `ok`, every live node `h` outside `writtenParents2`, outside the
+    removed subtree and outside the moved subtree: `h` is live afterwards, has the same value and the same children
+    (the same handles in the same order); and if its parent `p` is such a node too, `p` is still its parent. -/
+theorem C05_frame_general2 {s : Store} {c : Forest.XCall} (inv : s.forest.Inv) (hw : c.wellKinded)
+    (hf : c.framed2 = true) (hla : c.liveArgs s.forest) (hok : (c.run s).2 = .ok)
+    {h : Nat} (hl : s.forest.isLive h = true)
+    (hnw : h ∉ c.writtenParents2 s.forest) (hnr : h ∉ c.removedHandles s.forest)
+    (hnm : h ∉ c.movedSubtree s.forest) :
+    (c.run s).1.forest.isLive h = true ∧
+    (c.run s).1.forest.value? h = s.forest.value? h ∧
+    (c.run s).1.forest.kidHandles h = s.forest.kidHandles h ∧
+    (∀ p, s.forest.parent? h = some p → p ∉ c.writtenParents2 s.forest → p ∉ c.removedHandles s.forest →
+      p ∉ c.movedSubtree s.forest → (c.run s).1.forest.parent? h = some p) := by
+  have fr := frame_general2 inv hw hf hla hok hl hnw hnr hnm
+  refine ⟨fr.live, fr.value, fr.kids, fun p hp h1 h2 h3 => ?_⟩
+  have inv' : (c.run s).1.forest.Inv := Store.xstep_inv inv c hw
+  have hk := kid_of_parent? inv.nodup hp
+  have hpl : s.forest.isLive p = true := by
+    unfold Forest.kidHandles at hk
+    unfold Forest.isLive
+    cases hg : s.forest.get? p with
+    | none => rw [hg] at hk; cases hk
+    | some t => rfl
+  exact parent_of_frameAt inv.nodup inv'.nodup hp (frame_general2 inv hw hf hla hok hpl h1 h2 h3)
+
+/-- `framed2` extends `framed`. -/
+theorem C05_framed2_of_framed {c : Forest.XCall} (h : c.framed = true) : c.framed2 = true := framed2_of_framed h
+
+/-- The three constructors by themselves, in the `get?`-free form: **map clear** — every live node other than the
+    element and its entry nodes of that kind keeps value and children. -/
+theorem C05_frame_mapClear {f : Forest} (inv : f.Inv) {k : Forest.MapKind} {e : Nat}
+    (hok : (f.mapClear k e).2 = .ok) {h : Nat} (hl : f.isLive h = true) (hne : h ≠ e)
+    (hz : h ∉ f.entryHandles k e) :
+    (f.mapClear k e).1.isLive h = true ∧ (f.mapClear k e).1.value? h = f.value? h ∧
+    (f.mapClear k e).1.kidHandles h = f.kidHandles h := by
+  have fr := (getFrame_mapClear inv (isElement_of_mapClear_ok hok) hne hz).frameAt hl
+  exact ⟨fr.live, fr.value, fr.kids⟩
+
+/-- `<e a="1">x</e>` (0; 1; 2), the parentless attribute node `a="2"` (3), `<g b="3"/>` (4; 5). -/
+def frameWitness2 : Forest :=
+  { roots := [.node 0 (.element 2) [.node 1 (.attribute 5 ['1']) [], .node 2 (.text ['x']) []],
+              .node 3 (.attribute 5 ['2']) [],
+              .node 4 (.element 3) [.node 5 (.attribute 6 ['3']) []]],
+    next := 6 }
+
+/-- ⟦C05_writtenParents_misses_existing_entry⟧ `append_attribute_node(e, a="2")` on `frameWitness2`: the key `a` is
+    present in `e`, the existing attribute node 1 takes the value `2`; 1 is live, not in `writtenParents`, not in a
+    removed or moved subtree — and its value changes.  With `writtenParents2` it is listed. -/
+theorem C05_writtenParents_misses_existing_entry :
+    let s : Store := ⟨frameWitness2, Env.fresh⟩
+    let c : Forest.XCall := .call (.appendEntryNode .attributes 0 3)
+    s.forest.inv = true ∧ (c.run s).2 = .ok ∧ s.forest.isLive 1 = true ∧
+    c.writtenParents s.forest = [0, 2] ∧ c.removedHandles s.forest = [] ∧ c.movedSubtree s.forest = [3] ∧
+    s.forest.value? 1 = some (.attribute 5 ['1']) ∧ (c.run s).1.forest.value? 1 = some (.attribute 5 ['2']) ∧
+    c.writtenParents2 s.forest = [0, 2, 1] ∧ c.framed2 = true := by
+  decide +kernel
+
+/-- Non-vacuity of `C05_frame_general2` on `frameWitness2`: the attribute node 5 of `g` is appended to `e` (key `b`
+    absent): written are `g`, `e`, the text child of `e` and the attribute node of `e`; the node 5 moves; the
+    parentless attribute 3 is framed, `g` loses its child, `e` gets it after its attribute.  `any_append` of the same
+    node is the same call.  `clear()` of the attributes of `e`: written are `e` and 1; the text 2 stays. -/
+example :
+    let s : Store := ⟨frameWitness2, Env.fresh⟩
+    let c : Forest.XCall := .call (.appendEntryNode .attributes 0 5)
+    let d : Forest.XCall := .call (.anyAppend 0 5)
+    let m : Forest.XCall := .call (.mapClear .attributes 0)
+    c.framed2 = true ∧ (c.run s).2 = .ok ∧ c.writtenParents2 s.forest = [4, 0, 2, 1] ∧
+    c.movedSubtree s.forest = [5] ∧ (c.run s).1.forest.value? 3 = s.forest.value? 3 ∧
+    (c.run s).1.forest.kidHandles 0 = [1, 5, 2] ∧ (c.run s).1.forest.kidHandles 4 = [] ∧
+    d.framed2 = true ∧ (d.run s).2 = .ok ∧ d.writtenParents2 s.forest = [4, 0, 2, 1] ∧
+    (d.run s).1.forest.kidHandles 0 = [1, 5, 2] ∧
+    m.framed2 = true ∧ (m.run s).2 = .ok ∧ m.writtenParents2 s.forest = [0, 1] ∧
+    (m.run s).1.forest.kidHandles 0 = [2] ∧ (m.run s).1.forest.kidHandles 4 = [5] ∧
+    (m.run s).1.forest.value? 2 = s.forest.value? 2 := by
+  decide +kernel
+
+/-- ⟦C05_reachable_frame_general2_full⟧ … on every store a history of parses and API calls reaches from
+    `Xot::new()`: no hypothesis on the invariant (`C04_reach_full`). -/
+theorem C05_reachable_frame_general2_full (env : Env) (cs : List PCall) (hw : ∀ c ∈ cs, c.wellKinded)
+    (c : Forest.XCall) (hwc : c.wellKinded) (hf : c.framed2 = true) :
+    let s := ((PStore.init env).run cs).store
+    c.liveArgs s.forest → (c.run s).2 = .ok →
+    ∀ h, s.forest.isLive h = true → h ∉ c.writtenParents2 s.forest → h ∉ c.removedHandles s.forest →
+      h ∉ c.movedSubtree s.forest →
+      (c.run s).1.forest.isLive h = true ∧
+      (c.run s).1.forest.value? h = s.forest.value? h ∧
+      (c.run s).1.forest.kidHandles h = s.forest.kidHandles h := by
+  intro s hla hok h hl h1 h2 h3
+  have inv : s.forest.Inv := PStore.fph_run_inv cs (PStore.fph_init_inv env) hw
+  obtain ⟨a, b, c', _⟩ := C05_frame_general2 inv hwc hf hla hok hl h1 h2 h3
   exact ⟨a, b, c'⟩
 
 end XotModel.Props
